@@ -106,6 +106,7 @@ func VerifH18b() {
 	L := 4200
 	q := nondetBytes(3)
 	vAssume(vNoNUL(q))
+	vAssume(q[0] != 'C') // 'C…' is the harness's own marker for the COPY statement
 	if nondetBool() {
 		// a large (but legal) query: three symbolic bytes and a long tail, so that
 		// the message is bigger than the 4 KiB granule and bufio's chunking matters
@@ -117,32 +118,50 @@ func VerifH18b() {
 		vReach("large-retained-message")
 	}
 	pv := nondetBytes(2)
-	var keptQuery string
-	var keptCopy []byte
+	abandonCopy := nondetBool() // the first simple query starts COPY-in and gives up at once
+	var keptQueries []string
+	var keptCopies [][]byte
 	var keptParam, keptParamCopy []byte
 	parse := func(ctx context.Context, query string) (PreparedStatements, error) {
-		if keptCopy == nil {
-			keptQuery = query
-			keptCopy = append([]byte{}, query...)
-		}
+		keptQueries = append(keptQueries, query)
+		keptCopies = append(keptCopies, append([]byte{}, query...))
+		isCopy := len(query) > 0 && query[0] == 'C'
 		fn := func(ctx context.Context, dw DataWriter, params []Parameter) error {
+			if isCopy {
+				if _, err := dw.CopyIn(BinaryFormat); err != nil {
+					return err
+				}
+				return errVerifExec // abandon the stream without reading it
+			}
 			if len(params) == 1 && keptParamCopy == nil {
 				keptParam = params[0].Value()
 				keptParamCopy = append([]byte{}, keptParam...)
 			}
 			return dw.Complete("T")
 		}
-		return Prepared(NewStatement(fn)), nil
+		return Prepared(NewStatement(fn, WithColumns(vTextColumns(1)))), nil
 	}
-	input := vCat(
+	var input []byte
+	steps := 0
+	if abandonCopy {
+		input = append(input, vMsgBytes('Q', vCStr([]byte("C")))...)
+		steps++
+		vReach("abandoned-copy")
+	}
+	input = vCat(input,
 		vMsgBytes('P', vCat(vCStr(nil), vCStr(q), vU16(0))),
 		vMsgBytes('B', vCat(vCStr(nil), vCStr(nil), vU16(0), vU16(1), vU32(2), pv, vU16(0))),
 		vMsgBytes('E', vCat(vCStr(nil), vU32(0))),
+		vMsgBytes('S', nil),
+		vMsgBytes('Q', vCStr([]byte("second"))),
+		vMsgBytes('Q', vCStr([]byte("third"))),
 	)
+	steps += 6
 	sizes := []int{0, 1, 3, 4080, 4090, 4096, 4097, L, L + 1, L + 7}
 	for k := 0; k < K; k++ {
 		n := sizes[vChoose(len(sizes))]
 		input = append(input, vMsgBytes('d', make([]byte, n))...)
+		steps++
 		if n > L {
 			vReach("later-oversized-message")
 		}
@@ -156,13 +175,19 @@ func VerifH18b() {
 	w.conn = vNewConn(input)
 	w.ses, w.rd, w.wr = vSession(srv, w.conn)
 	w.ctx = vCtx(srv)
-	for k := 0; k < 3+K; k++ {
+	for k := 0; k < steps; k++ {
 		_, e := w.step()
 		vAssert("connection-stays-up", e == nil)
 	}
-	vAssert("query-was-retained", keptCopy != nil && vEqBytes(keptCopy, q))
+	want := 3
+	if abandonCopy {
+		want = 4
+	}
+	vAssert("queries-were-retained", len(keptQueries) == want)
 	vAssert("parameter-was-retained", keptParamCopy != nil && vEqBytes(keptParamCopy, pv))
-	vAssert("retained-query-unchanged", vEqStr(keptQuery, string(keptCopy)))
+	for i := range keptQueries {
+		vAssert("retained-query-unchanged", vEqStr(keptQueries[i], string(keptCopies[i])))
+	}
 	vAssert("retained-parameter-unchanged", vEqBytes(keptParam, keptParamCopy))
 }
 
